@@ -25,6 +25,7 @@ pub const WORKLOADS: &[(&str, &[u64])] = &[
     ("w_backtrack", &[4, 10, 25]),
     ("w_chars", &[3, 20, 80]),
     ("w_sccthrow", &[3, 20, 80]),
+    ("w_copyguard", &[3, 20, 80]),
 ];
 
 pub fn pick(rng: &mut Prng) -> (&'static str, u64) {
